@@ -59,7 +59,7 @@ def mmul(m1, m2, sg=1):
     for s, e in m2:
         v = dd.get(s, 0) + sg * e
         if v == 0:
-            del dd[s]
+            dd.pop(s, None)
         else:
             dd[s] = v
     return tuple(sorted(dd.items()))
@@ -197,7 +197,7 @@ class Record:
                             rn, rd = round(num ** (1.0 / e.denominator)), round(den ** (1.0 / e.denominator))
                             if rn ** e.denominator == num and rd ** e.denominator == den: root = Fraction(rn, rd) ** int(e.numerator)
                         if root is not None:
-                            return {tuple((v, int(ex * e)) for v, ex in ma): root}
+                            return {tuple((v, int(ex * e)) for v, ex in ma if int(ex * e) != 0): root}
             if f == 'pow':
                 B = P[b]
                 if is_const(B):
